@@ -268,6 +268,7 @@ pub struct SCounters {
     pub exact_fills: u64,
     pub zero_dest_calls: u64,
     pub budget_exhausted: u64,
+    pub tidy_before_advance: u64,
 }
 
 #[derive(Clone, Debug)]
@@ -839,6 +840,20 @@ pub fn run_schedule_full(d: &mut SDriver, rng: &mut Rng, chunk: &mut Chunking, p
                 let next = order.get(pos + 1).copied();
                 if stop_at_last_end && next.is_none() && st.stream_end {
                     return;
+                }
+                // the usual read loop: everything delivered has been consumed and the buffer tidied
+                // before the caller decides to move on (a fully compacted, empty buffer is a distinct
+                // layout for set_stream's discard step)
+                if rng.chance(1, 3) {
+                    let len = d.shadow_stream.len();
+                    if len > 0 {
+                        d.consume_stream(len);
+                    }
+                    d.compress();
+                    d.cnt.tidy_before_advance += 1;
+                    if !d.ok() {
+                        return;
+                    }
                 }
                 if d.set_stream(next).is_err() {
                     d.problem("forward-set-stream-rejected", format!("set_stream({next:?}) after stream {s} was rejected"));
